@@ -15,7 +15,8 @@ fn unquoted_special(a: &str) -> bool { !needs_quotes(a) && a.chars().any(special
 
 fn check(name: &str, args: &[String]) -> Option<(Vec<&'static str>, String)> {
     let built = mpd_protocol::Command::build(name);
-    if built.is_ok() != name_valid(name) { return Some((vec!["C07", "C06"], format!("Command::build({name:?}) is_ok={} but the name is {}", built.is_ok(), if name_valid(name) { "valid" } else { "invalid" }))); }
+    let tokenizable = !name.is_empty() && name.as_bytes()[0].is_ascii_alphabetic() && name.bytes().all(|b| b.is_ascii_alphanumeric() || b == b'_');
+    if built.is_ok() != name_valid(name) { return Some((if built.is_ok() && !tokenizable { vec!["C07", "C06"] } else { vec!["C07"] }, format!("Command::build({name:?}) is_ok={} but the name is {}", built.is_ok(), if name_valid(name) { "valid" } else { "invalid" }))); }
     let mut cmd = match built { Ok(c) => c, Err(_) => return None };
     let mut kept: Vec<String> = vec![];
     for a in args {
